@@ -384,6 +384,7 @@ type candShard struct {
 
 var (
 	visited     map[khash]struct{}     // states of the running search: 128-bit hashes of the state keys (written between levels only)
+	visitedRed  map[khash]struct{}     // ... of those, the ones reached by a reduced-alphabet history
 	allStates   = map[khash]struct{}{} // union over the searches
 	opCount     []int64                // executions per operation (last position of a case)
 	tokAccepted []int64
@@ -438,7 +439,14 @@ func mergeStats(s *transStats) {
 // (the next level uses the reduced alphabet), 2 = none (last level; new states are only counted).
 // Among several histories reaching a new state the stored one is: a reduced-alphabet history before
 // any other, then the lexicographically smallest in operation ids (independent of goroutine timing).
-func expand(frontier []node, full bool, keep int, async int, label string) (next []node, newStates int, done bool) {
+//
+// A state already visited by a history outside the reduced alphabet is visited AGAIN (and becomes a
+// node) when a reduced-alphabet history reaches it, so that the levels over the reduced alphabet are
+// a complete breadth-first search over that alphabet on their own.
+//
+// wide: the frontier is expanded with the full alphabet a second time after the reduced levels went
+// on from it; the reduced operations of its reduced-reachable nodes were executed then and are skipped.
+func expand(frontier []node, full bool, keep int, async int, wide bool, label string) (next []node, newStates int, done bool) {
 	shards := make([]candShard, nShards)
 	for i := range shards {
 		shards[i].m = map[khash]*cand{}
@@ -467,7 +475,7 @@ func expand(frontier []node, full bool, keep int, async int, label string) (next
 				if async == 0 || (async == 1 && !nd.red) || !op.enabled(cs) {
 					continue
 				}
-			} else if (!full && !op.reduced) || !op.enabled(cs) {
+			} else if (!full && !op.reduced) || !op.enabled(cs) || (wide && nd.red && op.reduced) {
 				continue
 			}
 			out := runCase(x, nd.hist, op, false, &st)
@@ -506,14 +514,16 @@ func expand(frontier []node, full bool, keep int, async int, label string) (next
 				r.Sample(map[string]interface{}{"history": histNames(h2), "errors_of_last_op": errs, "before": out.pre.describe(), "after": out.post.describe()})
 			}
 			kh := hashKey(out.key)
+			red := nd.red && op.reduced && op.kind != opAsync
 			if _, ok := visited[kh]; ok {
-				continue
+				if _, okr := visitedRed[kh]; okr || !red {
+					continue
+				}
 			}
 			if op.kind == opAsync {
 				asyncNew.Store(kh, struct{}{})
 				continue
 			}
-			red := nd.red && op.reduced
 			store := keep == 0 || (keep == 1 && red)
 			sh := &shards[shardOf(kh)]
 			sh.mu.Lock()
@@ -538,9 +548,14 @@ func expand(frontier []node, full bool, keep int, async int, label string) (next
 	})
 	for i := range shards {
 		for kh, c := range shards[i].m {
+			if _, seen := visited[kh]; !seen {
+				newStates++
+			}
 			visited[kh] = struct{}{}
 			allStates[kh] = struct{}{}
-			newStates++
+			if c.red {
+				visitedRed[kh] = struct{}{}
+			}
 			if c.hist != nil {
 				next = append(next, node{hist: c.hist, key: c.key, red: c.red})
 			}
@@ -556,31 +571,71 @@ func expand(frontier []node, full bool, keep int, async int, label string) (next
 
 // search runs the levels. fullDepth levels use the full alphabet, the levels up to maxDepth the reduced one.
 // asyncAll / asyncRed: up to which level coalesced rounds are executed from every expanded node /
-// from the reduced-reachable nodes only.
-func search(start []node, fullDepth, maxDepth, asyncAll, asyncRed int, label string) (levels []string) {
-	// every search has its own visited set: a state met by another search at a greater depth must
+// from the reduced-reachable nodes only. wide: after the reduced levels, the states of depth
+// fullDepth are expanded once more with the full alphabet (level fullDepth+1 over the full alphabet;
+// it is the broadest and most expensive level and therefore runs last, where a deadline cuts it).
+func search(start []node, fullDepth, maxDepth, asyncAll, asyncRed int, wide bool, label string) (levels []string) {
+	// every search has its own visited sets: a state met by another search at a greater depth must
 	// still be expanded here
 	visited = map[khash]struct{}{}
+	visitedRed = map[khash]struct{}{}
 	for _, nd := range start {
 		visited[hashKey(nd.key)] = struct{}{}
+		visitedRed[hashKey(nd.key)] = struct{}{}
 		allStates[hashKey(nd.key)] = struct{}{}
 	}
-	frontier := start
-	for d := 1; d <= maxDepth && len(frontier) > 0; d++ {
-		if r.Expired() {
-			r.NotExhaustive(fmt.Sprintf("deadline before %s level %d", label, d))
-			break
-		}
-		full := d <= fullDepth
+	runLevel := func(d int, frontier []node, full bool, keep, async int, wideRun bool) (next []node, ok bool) {
 		t0 := time.Now()
 		before := atomic.LoadInt64(&violCount)
 		tr0 := r.Get("transitions")
+		alpha := "reduced"
+		if full {
+			alpha = "full"
+		}
+		if wideRun {
+			alpha = "full, second pass over the states of the previous depth"
+		}
+		next, newStates, done := expand(frontier, full, keep, async, wideRun, fmt.Sprintf("%s level %d (%s alphabet)", label, d, alpha))
+		expanded := 0
+		for _, nd := range frontier {
+			if full || nd.red {
+				expanded++
+			}
+		}
+		levels = append(levels, fmt.Sprintf("level %d (%s alphabet): %d states expanded, %d transitions, %d new states, %.1fs, complete=%v",
+			d, alpha, expanded, r.Get("transitions")-tr0, newStates, time.Since(t0).Seconds(), done))
+		fmt.Fprintln(os.Stderr, label, levels[len(levels)-1])
+		if !done {
+			return next, false
+		}
+		if atomic.LoadInt64(&violCount) > before {
+			r.NotExhaustive(fmt.Sprintf("%s stopped after level %d (%s alphabet) because it found violations that are not listed as known (longer histories would repeat them)", label, d, alpha))
+			return next, false
+		}
+		return next, true
+	}
+	frontier := start
+	var wideFrontier []node
+	stopped := false
+	for d := 1; d <= maxDepth && len(frontier) > 0; d++ {
+		if r.Expired() {
+			r.NotExhaustive(fmt.Sprintf("deadline before %s level %d", label, d))
+			stopped = true
+			break
+		}
+		full := d <= fullDepth
 		keep := 0
 		switch {
 		case d == maxDepth:
 			keep = 2
 		case d >= fullDepth:
 			keep = 1
+			if wide && d == fullDepth {
+				keep = 0 // the full-alphabet pass needs every state of this depth
+			}
+		}
+		if wide && d == fullDepth+1 {
+			wideFrontier = frontier
 		}
 		async := 0
 		switch {
@@ -589,23 +644,20 @@ func search(start []node, fullDepth, maxDepth, asyncAll, asyncRed int, label str
 		case d <= asyncRed:
 			async = 1
 		}
-		next, newStates, done := expand(frontier, full, keep, async, fmt.Sprintf("%s level %d", label, d))
-		alpha := "reduced"
-		if full {
-			alpha = "full"
-		}
-		levels = append(levels, fmt.Sprintf("level %d (%s alphabet): %d frontier states, %d transitions, %d new states, %.1fs, complete=%v",
-			d, alpha, len(frontier), r.Get("transitions")-tr0, newStates, time.Since(t0).Seconds(), done))
-		fmt.Fprintln(os.Stderr, label, levels[len(levels)-1])
-		if !done {
+		next, ok := runLevel(d, frontier, full, keep, async, false)
+		if !ok {
+			stopped = true
 			break
 		}
 		r.Max("depth_completed_"+label, int64(d))
-		if atomic.LoadInt64(&violCount) > before {
-			r.NotExhaustive(fmt.Sprintf("%s stopped after level %d because it found violations that are not listed as known (longer histories would repeat them)", label, d))
-			break
-		}
 		frontier = next
+	}
+	if wide && !stopped && wideFrontier != nil {
+		if r.Expired() {
+			r.NotExhaustive(fmt.Sprintf("deadline before the full-alphabet pass of %s level %d", label, fullDepth+1))
+		} else if _, ok := runLevel(fullDepth+1, wideFrontier, true, 2, 0, true); ok {
+			r.Max("depth_completed_full_alphabet_"+label, int64(fullDepth+1))
+		}
 	}
 	return
 }
@@ -618,6 +670,7 @@ var seedHistories = [][]string{
 	{"L[L0p1,L1p1]", "L[L2p1,L3p1]", "R[A0p1,A1p1]"},
 	{"R[A1p1,A2p1]", "R[B1p100,B2p100]", "L[L0p1,L1p1]", "R(A0p2)"},
 	{"R[A0p1,A1p1]", "R[B0p100,B1p100]", "L(L1p1)", "L(L2p100)"},
+	{"R[A0p100,A1p100]", "R[B0p100,B1p100]", "L[L0p1,L1p1]"},
 }
 
 func seedNodes() []node {
@@ -677,20 +730,25 @@ func main() {
 			stopProfile = pprof.StopCPUProfile
 		}
 	}
-	fullDepth, maxDepth, seedDepth := 3, 4, 3
-	asyncAll, asyncRed, asyncSeed := 2, 2, 1             // coalesced rounds from every state of depth <= 1 (seeded: from the seeds)
+	fullDepth, maxDepth, seedDepth, wide := 3, 4, 3, false
+	asyncAll, asyncRed, asyncSeed := 2, 2, 1 // coalesced rounds from every state of depth <= 1 (seeded: from the seeds)
+	if r.Quick() {
+		r.SetDeadline(48 * time.Second)
+	} else {
+		// full alphabet to depth 3, reduced alphabet to depth 5, then the full alphabet on every state
+		// of depth 3 (= all histories of length 4 over the full alphabet), deadline-capped
+		fullDepth, maxDepth, seedDepth, wide = 3, 5, 4, true
+		asyncAll, asyncRed, asyncSeed = 2, 3, 2
+		r.SetDeadline(13 * time.Minute)
+	}
 	if md := os.Getenv("VERIF_C17_MAXDEPTH"); md != "" { // development aid
 		fmt.Sscan(md, &maxDepth)
 		if fullDepth > maxDepth {
 			fullDepth = maxDepth
 		}
 	}
-	if r.Quick() {
-		r.SetDeadline(48 * time.Second)
-	} else {
-		fullDepth, maxDepth, seedDepth = 4, 5, 4
-		asyncAll, asyncRed, asyncSeed = 2, 3, 2
-		r.SetDeadline(13 * time.Minute)
+	if os.Getenv("VERIF_C17_NOWIDE") != "" { // development aid
+		wide = false
 	}
 	r.Exhaustive(true)
 
@@ -707,8 +765,8 @@ func main() {
 
 	// the seeded search comes first: it is small and reaches the pool-full branch; then the main search
 	seeds := seedNodes()
-	seedLevels := search(seeds, 0, seedDepth, asyncSeed, asyncSeed, "seeded")
-	mainLevels := search([]node{{hist: nil, key: k0, red: true}}, fullDepth, maxDepth, asyncAll, asyncRed, "main")
+	seedLevels := search(seeds, 0, seedDepth, asyncSeed, asyncSeed, false, "seeded")
+	mainLevels := search([]node{{hist: nil, key: k0, red: true}}, fullDepth, maxDepth, asyncAll, asyncRed, wide, "main")
 	asyncNew.Range(func(k, _ interface{}) bool { allStates[k.(khash)] = struct{}{}; return true })
 	r.Set("levels_main", mainLevels)
 	r.Set("levels_seeded", seedLevels)
@@ -731,23 +789,27 @@ func main() {
 	r.Set("alphabet_full", nFull)
 	r.Set("alphabet_reduced", nRed)
 	r.Set("alphabet_coalesced_rounds", len(asyncOps))
+	wideText := ""
+	if wide {
+		wideText = fmt.Sprintf(", then (last, as far as the deadline allows) all histories of length %d over the full alphabet", fullDepth+1)
+	}
 	r.Set("rule", fmt.Sprintf("real tx_pool.TxPool with AccountSlots %d, GlobalSlots %d, AccountQueue %d, GlobalQueue %d, PriceBump %d, journal off except for the journal token; "+
 		"3 senders with fixed keys (L submitted through AddLocal, A, B); tokens: nonce 0..3 x price {1,2,100} x {gas 30000, gas 60000 (fits the initial block gas limit 100000, not the lowered 50000)} plus value > balance, gas 200000 > block gas limit, "+
 		"prices 105/110 (bump boundary), wrong chain id, >128 KiB data, gas below intrinsic; exact duplicates arise by repeating a token; "+
 		"operations (%d in the full alphabet, %d in the reduced one; the pruning rule is written next to reducedAlphabet in universe.go): AddRemotesSync([t]), AddLocal(t), 2-element batches of both, head reset to a new state "+
 		"(a sender's state nonce advanced to k, balance of a sender lowered to 100000, block gas limit lowered, unchanged state), SetGasPrice(1|2|100), journal save + stop + load into a new pool. "+
-		"main: breadth-first over all histories of length <= %d over the full alphabet, continued to length %d with the reduced alphabet from the states reachable over the reduced alphabet; "+
+		"main: breadth-first over all histories of length <= %d over the full alphabet and of length <= %d over the reduced alphabet%s; "+
 		"seeded: from %d histories that fill the pool to GlobalSlots+GlobalQueue (pool-full branch of add), all continuations of length <= %d over the reduced alphabet; "+
 		"coalesced rounds (%d: ordered pairs of 10 sub-batches x {no head change, A mined to 1 requested after both, A's balance lowered requested between them}): with a reorg run in flight and blocked on the pool lock, the locked sections of two submissions (addTxsLocked) and optionally a reset request execute, the real scheduleReorgLoop merges them into one run; executed as a last operation from every main state of depth <= %d (reduced-reachable states up to depth %d) and every seeded state of depth <= %d. "+
 		"A state is its shortest history; successor = fresh pool + replay + one operation; states are merged by key = Content() per sender + local set + gas price + chain state + heartbeat order; "+
 		"the oracle runs after every operation; transitions = operations judged on the real pool (replayed prefixes are counted under op_executions)",
-		cfgAccountSlots, cfgGlobalSlots, cfgAccountQueue, cfgGlobalQueue, cfgPriceBump, nFull, nRed, fullDepth, maxDepth, len(seedHistories), seedDepth,
+		cfgAccountSlots, cfgGlobalSlots, cfgAccountQueue, cfgGlobalQueue, cfgPriceBump, nFull, nRed, fullDepth, maxDepth, wideText, len(seedHistories), seedDepth,
 		len(asyncOps), asyncAll-1, asyncRed-1, asyncSeed-1))
 	r.Assume(
 		"limits are read in the go-ethereum sense (DESIGN.md A.5) and only for the moment after a reorg run: SetGasPrice and rejected-before-the-lock submissions do not run one; the per-account queue cap is required only for non-local senders whose queue that run processed (senders of newly accepted transactions; after a head reset every sender, not counting transactions demoted from pending in that same run)",
 		"'local sender' is what Locals() reports; the price heap / SetGasPrice oracle uses the pool's own per-transaction local flag (lookup index halves) because AddLocal of a pending replacement marks the transaction but not the sender",
 		"a batch is required to equal the same singles only when neither execution evicted anything for a limit (one reorg run vs two legitimately truncate differently)",
-		"an accepted transaction may disappear in the same operation only if a limit can bind (coarse upper bounds on pending / queue / slot totals); a rejected single submission (or a batch rejected entirely) must leave Content(), Locals() and GasPrice() unchanged",
+		"an accepted transaction may disappear in the same operation only if a limit can bind (coarse upper bounds on pending / queue / slot totals); a rejected single submission (or a batch rejected entirely) must leave Content(), Locals() and GasPrice() unchanged - required of states in which a reorg run has nothing to truncate (SetGasPrice can leave the pool above a limit; the run a rejected submission requests then enforces it)",
 		"the journal token must bring back exactly the transactions of the senders Locals() reported (the journal's stated purpose); the operator's SetGasPrice setting is re-applied by the harness after the restart",
 		"head changes are monotone (nonces only advance, balance and gas limit only drop) so that the chain-state space is finite; no reorg with an old head (transaction re-injection from dropped blocks) is driven",
 		"not owned: Go map iteration order inside the pool (victim choice in truncatePending among equal offenders, order of promotion and hence of heartbeats inside one reorg run). Invariants are checked on whatever outcome occurs; a replay that reaches another key than recorded is counted under nondeterministic_successors and explored as it is; the set of outcomes of such a transition is not exhausted",
